@@ -154,6 +154,21 @@ def r016_features(ctx, rule):
     okst = okst and seen["s"] == 1 and seen["c"] == 1
     ctx.ob(rule, fq, stores[0].node if stores else c.node, okst, "one column per processed sensitive feature and, when given, per "
            "processed control feature", construct="feature column loops")
+    # _process_features: the generic array-like branch keeps the element types (dtype=object); without it numpy coerces a table of
+    # mixed-type records to strings and the by_group index no longer holds the observed values
+    rp = Analysis(ctx, max_depth=0).run(MF + "._process_features", cls_ctx=MF)
+    feats = rp.params["features"]
+    conv = [e for e in rp.events if e.kind == "call" and e.data.get("callee") in ("numpy.asarray", "numpy.array", "numpy.asanyarray")
+            and e.data["args"] and e.data["args"][0] is feats]
+    ctx.floor(rule, "array conversions of the features in _process_features", len(conv), 2)
+    islist = A.C.canon(mk("call", glob("builtins.isinstance"), (feats, glob("builtins.list")), ()))
+    for e in conv:
+        scalars_only = any(A.C.canon(l) is islist for l in pc_literals(e.pc))
+        dt = kw(e, "dtype")
+        okd = scalars_only or dt is glob("builtins.object") or (dt is not None and dt.op == "const" and const_value(dt) in ("object", "O"))
+        ctx.ob(rule, rp.func, e.node, bool(okd), "the conversion of array-like features keeps the element types (dtype=object; the list "
+               "branch holds scalars only)" if okd else "array-like features are converted without dtype=object: records of mixed types "
+               "are coerced to strings, so the group labels are not the observed values", construct="feature conversion dtype")
     pop = calls_to(r, MF + "._populate_results")
     ok = len(pop) == 1 and arg(pop[0], 0) is c.data["result"] and guards(pop[0]) == base
     ctx.ob(rule, fq, pop[0].node if pop else c.node, ok, "the disaggregated result is handed to _populate_results", construct="populate call")
@@ -199,6 +214,17 @@ def r012_slicing(ctx, rule):
         okk = kst[0].data["key"] is fa and A.eq(kst[0].data["value"], want) and it.op == "call" and it.args[0].op == "attr" \
             and it.args[0].args[1] == "items" and A.eq(it.args[0].args[0], A.entry(r, "self.kw_argument_mapping"))
     ctx.ob(rule, fq, kst[0].node if kst else None, okk, "keyword argument <k> is df[mapping[k]]", construct="keyword columns")
+    # every call hands the metric arrays of its own: np.asarray(list(col)) is a new buffer, np.asarray(col) / col itself is the
+    # frame's (or a cached) buffer shared by all metrics of the cell and, for ndarray-backed frames, by all cells
+    from .common import may_alias
+    handed = ([arg(apps[0], 0)] if len(apps) == 1 else []) + ([kst[0].data["value"]] if len(kst) == 1 else [])
+
+    def from_df(x):
+        return x is df or (x.op == "sub" and x.args[0] is df) or (x.op == "call" and x.args[0].op == "attr" and x.args[0].args[0] is df)
+    shared = [t for t in handed if t is not None and may_alias(t, from_df)]
+    ctx.ob(rule, fq, c.node, not shared and len(handed) == 2, "each argument handed to the metric is a newly created array" if not shared else
+           "an argument handed to the metric can be the frame's own column buffer: a metric that updates its argument in place "
+           "changes what the other metrics of the frame are computed from", construct="arguments are fresh arrays")
     # no data from self reaches the metric
     leak = [s for s in subterms(mk("tuple", tuple(c.data["args"]) + tuple(v for _, v in c.data["kwargs"])))
             if s.op == "attr" and s.args[0] is r.self_term and s.args[1] not in ("postional_argument_names", "kw_argument_mapping")]
